@@ -84,6 +84,26 @@ fn find(hay: &[u8], needle: &[u8]) -> bool {
     false
 }
 
+/// Overwrite a block that is about to be freed. Plain `write_bytes` before `dealloc` is a dead
+/// store the optimiser removes, so the writes are volatile (word-wise where aligned).
+#[inline(never)]
+unsafe fn wipe(ptr: *mut u8, size: usize) {
+    let mut i = 0usize;
+    while i < size && (ptr.add(i) as usize) % 8 != 0 {
+        std::ptr::write_volatile(ptr.add(i), 0xDD);
+        i += 1;
+    }
+    while i + 8 <= size {
+        std::ptr::write_volatile(ptr.add(i) as *mut u64, 0xDDDD_DDDD_DDDD_DDDD);
+        i += 8;
+    }
+    while i < size {
+        std::ptr::write_volatile(ptr.add(i), 0xDD);
+        i += 1;
+    }
+    std::sync::atomic::compiler_fence(std::sync::atomic::Ordering::SeqCst);
+}
+
 unsafe fn scan(ptr: *mut u8, size: usize, via_realloc: bool) {
     let armed = ARMED.try_with(|a| a.get()).unwrap_or(false);
     if !armed || size < 8 {
@@ -146,7 +166,7 @@ unsafe impl GlobalAlloc for SimAlloc {
 
     unsafe fn dealloc(&self, ptr: *mut u8, layout: Layout) {
         scan(ptr, layout.size(), false);
-        std::ptr::write_bytes(ptr, 0xDD, layout.size());
+        wipe(ptr, layout.size());
         on_free(layout.size());
         System.dealloc(ptr, layout);
     }
@@ -161,7 +181,7 @@ unsafe impl GlobalAlloc for SimAlloc {
         on_alloc(new_size);
         std::ptr::copy_nonoverlapping(ptr, np, layout.size().min(new_size));
         scan(ptr, layout.size(), true);
-        std::ptr::write_bytes(ptr, 0xDD, layout.size());
+        wipe(ptr, layout.size());
         on_free(layout.size());
         System.dealloc(ptr, layout);
         np
